@@ -393,12 +393,42 @@ func deepValueSpace(thorough bool) space {
 	return space{"deepvalue", len(srcs), func(i int) string { return srcs[i] }}
 }
 
+// stackLimitSpace: the same small construct executed at every depth in a window around the VM's limits (1024 frames,
+// 1024 operand slots): a function that keeps one operand pending per level recurses N levels down and runs the
+// construct there, for every N from 985 to 1035 - so that the construct meets the stack exactly full, one below and
+// one above, whichever way its own needs add up. Reached through Eval and, via a second function, through risor.Call.
+// What comes back is a value or an error; a Go panic that escapes, or a dead process, is what the limits must not cause.
+func stackLimitSpace(thorough bool) space {
+	leaves := []string{"a, b, c, d := [1, 2, 3, 4]\nreturn a", "a, b := \"x y\".split(\" \")\nreturn a", "return [1, 2, 3, 4, 5, 6, 7, 8][0]", "return len([1, 2, 3])", "return '{n}{n}'",
+		"x := 0\nfor i := range 3 { x += i }\nreturn x", "return try(func() { return 1 })", "defer len([1])\nreturn 1", "return {\"a\": 1, \"b\": 2}[\"a\"]",
+		"return [1, 2, 3].map(func(v) { return v })[0]", "return sorted([3, 1, 2])[0]", "return 1 | string", "return func(a, b, c) { return a }(1, 2, 3)", "x := [1, 2]\nx[0] += 1\nreturn x[0]",
+		"switch n { case 0: return 1 }\nreturn 2", "return 1 in [1, 2]", "c := chan(1)\nc <- 1\nreturn <-c", "return [9, 8, 7][1:][0]", "return error(\"leaf\")"}
+	// values that arrive without having been pushed one by one: unpacking 2..16 values from the result of a call
+	for _, k := range []int{2, 3, 4, 5, 8, 16} {
+		var names, words []string
+		for i := 0; i < k; i++ {
+			names = append(names, fmt.Sprintf("u%d", i))
+			words = append(words, fmt.Sprintf("w%d", i))
+		}
+		leaves = append(leaves, strings.Join(names, ", ")+" := \""+strings.Join(words, " ")+"\".split(\" \")\nreturn u0")
+	}
+	var srcs []string
+	for _, leaf := range leaves {
+		for n := 985; n <= 1035; n++ {
+			srcs = append(srcs, "func f(n) {\nif n == 0 {\n"+leaf+"\n}\nreturn 1 + f(n - 1)\n}\nfunc g(a) { return f("+strconv.Itoa(n)+") }\ntry(func() { return f("+strconv.Itoa(n)+") }, func(e) { return -1 })")
+		}
+	}
+	return space{"stacklimit", len(srcs), func(i int) string { return srcs[i] }}
+}
+
 func spaceByName(name string, thorough bool) space {
 	switch name {
 	case "nesting":
 		return nestingSpace(thorough)
 	case "deepvalue":
 		return deepValueSpace(thorough)
+	case "stacklimit":
+		return stackLimitSpace(thorough)
 	case "hostile":
 		return hostileSpace(thorough)
 	case "edits":
@@ -422,7 +452,7 @@ func spaces(thorough bool) []space {
 	if thorough {
 		l = 4
 	}
-	return []space{nestingSpace(thorough), deepValueSpace(thorough), hostileSpace(thorough), editSpace(thorough), edits2Space(thorough), slotSpace(), volumeSpace(), soupSpace(l)}
+	return []space{nestingSpace(thorough), deepValueSpace(thorough), stackLimitSpace(thorough), hostileSpace(thorough), editSpace(thorough), edits2Space(thorough), slotSpace(), volumeSpace(), soupSpace(l)}
 }
 
 // ------------------------------------------------------------------ one input (runs in the worker)
@@ -715,7 +745,7 @@ func Check(r *ev.Run, replay string) {
 		sort.Strings(skipped)
 		r.Set("skipped_inputs", skipped)
 	}
-	r.Set("rule", "soup: every sequence of <= 3 (thorough 4) tokens over a 68-token alphabet; edits: every single-token deletion and duplication, and the insertion of a line break (thorough: also of ; , : ( ) { }) at every token gap, of every program of the function/container/error/closure families (every 6th program in quick); edits2: every ordered pair of single-token edits (delete, insert or replace by one of 7 - thorough 15 - separator and bracket tokens) of 42 one-statement seeds, one per syntactic form, each with a parenthesised operand; hostile: every default-global callable (exec, network modules and exit excluded) x hostile argument tuples (arity 0-2; thorough all pairs), every method name x hostile receiver x hostile argument, operators/interpolation/indexing on all pairs of 22 hostile values; volume: every default-global callable and every method of six receiver kinds called 300 times in one process with 300 distinct strings / integers in each argument position; nesting: 25 constructs nested or chained 10..10^3 deep (prefix and bracket forms through the parser's recursion, operator / attribute / index / call / pipe chains through its loop), 24 of them also 10^6 deep (chains 4 x 10^6), complete and truncated (thorough: all at 10..10^6), and 63 constructs repeated 10..10^6 times one after the other (else-if chains, comments, line breaks, separators, elements, parameters, cases, template segments, targets, prefixes, suffixes, digits); deepvalue: lists, maps and both alternating nested 3 x 10^6 deep by a loop, handed to 24 consumers that walk a value (string conversion, printing, interpolation, error formatting, ==, <, in, index, count, sorted, JSON, copy, hash), alone and against a second such value; slots: 25 templates (unbounded recursion through every call path, a function literal with a compile error inside every kind of block, for, if, switch, func, call, index/slice, assignment, import/from, go/defer, map, list, operators, jumps in and out of context, string escapes/interpolations, channel operations, attributes, pipes, range and for-in headers, try, comments, number literals, ++/--) x every combination of 2-15 fillers per slot, each alone and after a prelude that defines the names; shared (thorough): map/set/list x every ordered pair of 5-10 operations x go/spawn x {unordered, thread.wait() first, channel hand-off first}, each scenario free-running in its own child built with -race - a report through the Go runtime map routines on an unordered scenario is the access pattern behind the fatal error concurrent map writes, ordered scenarios must be silent. Every input runs parse, String, compile, Eval (15 ms deadline, virtual OS), risor.Call of up to four of its global names, and the error formatters in a worker child; distinct = worker batches completed")
+	r.Set("rule", "soup: every sequence of <= 3 (thorough 4) tokens over a 68-token alphabet; edits: every single-token deletion and duplication, and the insertion of a line break (thorough: also of ; , : ( ) { }) at every token gap, of every program of the function/container/error/closure families (every 6th program in quick); edits2: every ordered pair of single-token edits (delete, insert or replace by one of 7 - thorough 15 - separator and bracket tokens) of 42 one-statement seeds, one per syntactic form, each with a parenthesised operand; hostile: every default-global callable (exec, network modules and exit excluded) x hostile argument tuples (arity 0-2; thorough all pairs), every method name x hostile receiver x hostile argument, operators/interpolation/indexing on all pairs of 22 hostile values; volume: every default-global callable and every method of six receiver kinds called 300 times in one process with 300 distinct strings / integers in each argument position; nesting: 25 constructs nested or chained 10..10^3 deep (prefix and bracket forms through the parser's recursion, operator / attribute / index / call / pipe chains through its loop), 24 of them also 10^6 deep (chains 4 x 10^6), complete and truncated (thorough: all at 10..10^6), and 63 constructs repeated 10..10^6 times one after the other (else-if chains, comments, line breaks, separators, elements, parameters, cases, template segments, targets, prefixes, suffixes, digits); deepvalue: lists, maps and both alternating nested 3 x 10^6 deep by a loop, handed to 24 consumers that walk a value (string conversion, printing, interpolation, error formatting, ==, <, in, index, count, sorted, JSON, copy, hash), alone and against a second such value; stacklimit: 25 small constructs executed at every recursion depth from 985 to 1035 with one operand pending per level, through Eval and risor.Call; slots: 25 templates (unbounded recursion through every call path, a function literal with a compile error inside every kind of block, for, if, switch, func, call, index/slice, assignment, import/from, go/defer, map, list, operators, jumps in and out of context, string escapes/interpolations, channel operations, attributes, pipes, range and for-in headers, try, comments, number literals, ++/--) x every combination of 2-15 fillers per slot, each alone and after a prelude that defines the names; shared (thorough): map/set/list x every ordered pair of 5-10 operations x go/spawn x {unordered, thread.wait() first, channel hand-off first}, each scenario free-running in its own child built with -race - a report through the Go runtime map routines on an unordered scenario is the access pattern behind the fatal error concurrent map writes, ordered scenarios must be silent. Every input runs parse, String, compile, Eval (15 ms deadline, virtual OS), risor.Call of up to four of its global names, and the error formatters in a worker child; distinct = worker batches completed")
 }
 
 var frameRe = regexp.MustCompile(`github.com/risor-io/risor/([a-zA-Z0-9_/]+)\.(\(\*?[A-Za-z0-9_]+\)\.)?([A-Za-z0-9_]+)`)
